@@ -20,8 +20,10 @@ where
 }
 
 // image encoding: 0..k-1 = element, k = Err(Invalid), k+1 = Err(BadCodepoint)
+// universe: "", "a", "aa", ... - contains the empty string, and every smaller element is a
+// prefix of every larger one, so f can hand back a *borrowed* string that differs from its input
 fn name(i: usize) -> String {
-    format!("{}", i)
+    "a".repeat(i)
 }
 
 fn err_of(code: usize, k: usize) -> E {
@@ -40,7 +42,8 @@ fn impl_err(code: usize, k: usize) -> Error {
     }
 }
 
-/// style: 0 = f always returns Owned; 1 = f returns Borrowed(input) when f(x)=x
+/// style: 0 = f always returns Owned; 1 = f returns Borrowed(input) when f(x)=x;
+/// 2 = additionally Borrowed(prefix of the input) whenever the image is shorter
 /// form: 0 = &str, 1 = String, 2 = Cow::Borrowed, 3 = Cow::Owned
 pub fn check_fn(f: &[usize], k: usize, start: usize, style: u8, form: u8, st: &mut Stats) {
     let names: Vec<String> = (0..k).map(name).collect();
@@ -56,9 +59,11 @@ pub fn check_fn(f: &[usize], k: usize, start: usize, style: u8, form: u8, st: &m
         if img >= k {
             return Err(impl_err(img, k));
         }
-        if img == i && style == 1 {
-            // borrowed from a 'static-independent owner is impossible here; borrow the input
+        if img == i && style >= 1 {
             Ok(Cow::Borrowed(unsafe_same(x)))
+        } else if img < i && style == 2 {
+            // a borrowed sub-slice of the input: different content, Borrowed variant
+            Ok(Cow::Borrowed(&unsafe_same(x)[..img]))
         } else {
             Ok(Cow::Owned(names[img].clone()))
         }
@@ -203,7 +208,7 @@ pub fn run(_env: &Env, run: &Run) -> (Stats, Coverage) {
             for start in 0..k {
                 st.states += 1;
                 // transitions = applications the reference makes along the chain
-                for style in 0..2u8 {
+                for style in 0..3u8 {
                     // the argument forms only matter at entry; rotate them over styles/starts
                     for form in 0..4u8 {
                         if run.tier == Tier::Quick || form == ((start as u8 + style) % 4) || idx % 7 == 0 {
@@ -221,13 +226,14 @@ pub fn run(_env: &Env, run: &Run) -> (Stats, Coverage) {
         st.merge(s);
     }
     check_diverging(&mut st);
+    st.sample(json!({"universe": "element i = 'a' repeated i times (element 0 is the empty string)"}));
     st.sample(json!({"k": 4, "f": "0->1,1->2,2->3,3->3", "start": 0, "expected": "Ok(3) after 4 applications (first + three re-applications)"}));
     st.sample(json!({"k": 4, "f": "0->1,1->0", "start": 0, "expected": "Err(Invalid) after 4 applications"}));
     st.sample(json!({"k": 4, "f": "0->1,1->Err(BadCodepoint)", "start": 0, "expected": "that BadCodepoint error, after 2 applications"}));
     let cov = Coverage {
         rule: format!("state = (f, start, Cow style, argument form) with f ranging over ALL {}^{} functions from a {}-element universe of strings to that universe + {{Err(Invalid), Err(BadCodepoint)}}; oracle = RFC 8264 s.7 chain semantics (first application + 3 re-applications), call log must equal the chain; non-trivial = chains needing more than one application", base, k, k),
         alphabet: json!({"universe": (0..k).map(name).collect::<Vec<_>>(), "errors": ["Invalid", "BadCodepoint(0x42,7,Disallowed)"]}),
-        bound_completed: format!("all {} functions x {} starts x 2 Cow styles (x 4 argument forms{})", nf, k, if run.tier == Tier::Quick { "" } else { ", rotated; all 4 on every 7th function" }),
+        bound_completed: format!("all {} functions x {} starts x 3 Cow styles (always Owned / Borrowed when unchanged / Borrowed sub-slice whenever the image is a prefix) (x 4 argument forms{})", nf, k, if run.tier == Tier::Quick { "" } else { ", rotated; all 4 on every 7th function" }),
         exhaustive: true,
         assumptions: vec!["stabilize only observes f through its return values; a universe of k strings contains every chain shape up to length k (converging after 0..k-1 steps, every cycle length <= k, failure at every step)".into()],
         extra: json!({"universe_size": k, "functions": nf}),
